@@ -1108,9 +1108,10 @@ UNPACK_SLOT_KINDS = (["plain"] * 7 + ["star"] * 3 + ["dstar"] * 3 + ["kw"] * 3 +
                      ["long-star", "long-dstar", "star-surplus", "dstar-surplus", "dstar-surplus"])
 RARE_SLOT_KINDS = ["star-empty", "dstar-empty"]
 OBJ_FORMS = ["call", "method", "dot", "get"]                 # evaluate to a stand-in
-HASHABLE_FORMS = OBJ_FORMS + ["op", "cut", "tuple", "fstring", "cmp", "chainc"]
+HASHABLE_FORMS = OBJ_FORMS + ["op", "cut", "tuple", "fstring", "cmp", "chainc", "fn"]
 ANY_FORMS = ["call", "call", "method", "dot", "list", "tuple", "set", "dict", "get", "cut", "op", "cmp",
-             "chainc", "fstring"]
+             "chainc", "fstring", "fn", "fn"]
+TOP_FORMS = ["decorators", "bases", "assert", "assert", "try", "try", "fn", "defn", "defn", "defn", "setv"]
 CMP1 = ("=", "is", "<", "<=", ">", ">=")                    # accept a single operand
 
 
@@ -1136,6 +1137,8 @@ class LeafGen:
         self.special = {}        # leaf name -> "falsy" | "exc:<k>" (value the recording namespace returns)
         self.runtime = None      # leaf names that must be read at run time (None = all)
         self.expect_exc = None   # exception type name that ends a *complete* run
+        self.not_run = []        # leaves control flow never reaches (bodies of functions nobody calls)
+        self.pn = 0
 
     def bare_leaf(self):
         s = S(f"v{self.n}")
@@ -1204,8 +1207,7 @@ class LeafGen:
     def form(self, nest=0, kind=None):
         rng = self.rng
         if kind is None:
-            kind = rng.choice(ANY_FORMS + (["decorators", "bases", "assert", "assert", "try", "try"]
-                                           if nest == 0 else []))
+            kind = rng.choice(ANY_FORMS + (TOP_FORMS if nest == 0 else []))
         self.kinds.add("form:" + kind)
         objslot = ["plain", "plain", "plain", "star", "dstar"]
         if kind == "call":
@@ -1352,12 +1354,120 @@ class LeafGen:
                 tail.append(E(S("finally"), fin))
             self.runtime = run
             return E(S("try"), *body, *clauses, *tail)
+        if kind in ("fn", "defn"):
+            return self.function(nest, kind)
+        if kind == "setv":
+            return E(S("setv"), S("r"), self.operand(nest))
         if kind == "decorators":
             return E(S("defn"), L(*self.slots(nest, 1, 3, want="obj", ctx="plain")), S("fname"), L(), I(1))
         if kind == "bases":
             return E(S("defclass"), L(*self.slots(nest, 0, 2, ["plain", "star", "dstar", "dstar-surplus"], "obj", "plain")),
                      S("Cname"), L(*self.slots(nest, 0, 3, want="obj", ctx="call")))
         raise ValueError(kind)
+
+
+def _function(self, nest, kind):
+    """(fn [params] body) / (defn [decorators] name [params] body), optionally called at once.
+    Leaves sit in the positions evaluated when the definition executes - parameter
+    annotations, defaults, the return annotation, decorators - and in the body, which is
+    reached only if the function is called (otherwise its leaves are `not_run`)."""
+    rng = self.rng
+    ann_p = rng.choice([0.0, 0.3, 0.6])
+
+    def pname():
+        self.pn += 1
+        return S(f"p{self.pn}")
+
+    def value():
+        return self.leaf() if (nest + 1 >= self.max_nest or rng.random() < 0.8) else self.operand(nest + 1)
+
+    def annotated(target):
+        if rng.random() < ann_p:
+            self.kinds.add("fn:param-annotation")
+            return E(S("annotate"), target, value())
+        return target
+
+    npos = rng.choice([0, 0, 1, 1, 2])
+    nreg = rng.randint(0, 2)
+    first_default = rng.randint(0, npos + nreg)
+    positional, required = [], 0
+    for i in range(npos + nreg):
+        nm = pname()
+        if i >= first_default and rng.random() < 0.8:
+            self.kinds.add("fn:default")
+            positional.append(annotated(L(nm, value())))
+        elif i >= first_default:
+            positional.append(annotated(L(nm, I(1))))
+        else:
+            required += 1
+            positional.append(annotated(nm))
+    params = positional[:npos] + ([S("/")] if npos else []) + positional[npos:]
+    if npos:
+        self.kinds.add("fn:positional-only")
+    star = rng.choice(["", "", "*", "rest"])
+    kwcall = []
+    if star == "rest":
+        self.kinds.add("fn:varargs")
+        params.append(annotated(E(S("unpack-iterable"), pname())))
+    if star:
+        nkw = rng.randint(1 if star == "*" else 0, 2)
+        if star == "*":
+            params.append(S("*"))
+        for _ in range(nkw):
+            self.kinds.add("fn:keyword-only")
+            nm = pname()
+            if rng.random() < 0.5:
+                params.append(annotated(L(nm, value())))
+            else:
+                params.append(annotated(nm))
+                kwcall += [KW(nm["v"]), I(1)]
+    if rng.random() < 0.3:
+        self.kinds.add("fn:kwargs")
+        params.append(annotated(E(S("unpack-mapping"), pname())))
+    plist = L(*params)
+    ret = None
+    if rng.random() < ann_p:
+        self.kinds.add("fn:return-annotation")
+        ret = value()
+    tp = [KW("tp"), L(S("T"))] if rng.random() < 0.08 else []
+    if tp:
+        self.kinds.add("fn:type-params")
+    # body: an expression only (fn may become a lambda), or with a statement
+    before = self.n
+    style = rng.choice(["expr", "expr", "stmt", "two"])
+    save, self.wrap_p = self.wrap_p, (0.0 if style == "expr" else self.wrap_p)
+    body = [self.operand(nest + 1)] if nest + 1 < self.max_nest else [self.leaf()]
+    self.wrap_p = save
+    if style == "stmt":
+        lf = self.bare_leaf()
+        body = [E(S("setv"), S("q"), lf)] + body
+    elif style == "two":
+        body = [self.leaf()] + body
+    self.kinds.add("fn:body-" + style)
+    body_leaves = [f"v{i}" for i in range(before, self.n)]
+    called = rng.random() < 0.45
+    self.kinds.add("fn:called" if called else "fn:not-called")
+    if not called:
+        self.not_run += body_leaves
+    args = [I(1)] * required + kwcall
+    if kind == "fn":
+        head = [S("fn")] + tp + [E(S("annotate"), plist, ret) if ret is not None else plist]
+        f = E(*head, *body)
+        return E(f, *args) if called else f
+    name = S("fname")
+    decos = [L(*[self.leaf() for _ in range(rng.randint(1, 2))])] if rng.random() < 0.3 else []
+    if decos:
+        self.kinds.add("fn:decorators")
+    d = E(S("defn"), *decos, *tp, E(S("annotate"), name, ret) if ret is not None else name, plist, *body)
+    if called and not decos:
+        return E(S("do"), d, E(name, *args))
+    if called:
+        # a decorated name is rebound to whatever the (stand-in) decorator returns: not callable as f
+        self.not_run += body_leaves
+    return d
+
+
+LeafGen.function = _function
 
 
 def gen_leafform(rng, max_nest=3):
